@@ -436,6 +436,8 @@ def v_truthy(v):
         return len(v.fields) > 0
     if isinstance(v, SOpaque):
         return True
+    if type(v).__name__ in ("SObj", "PathVal", "FileVal", "ExcVal"):
+        return True
     if hasattr(v, "__pyvc_truthy__"):
         return v.__pyvc_truthy__()
     return bool(v)
